@@ -1,13 +1,14 @@
 SPECIFICATION Spec
 CONSTANTS
- P = 23
- Q = 11
+ P = 7
+ Q = 3
  Gg = 2
- Vars = {"two", "n", "opt"}
- Ns = {2, 3, 4}
- MsgVecs <- MV23b
- CCoins <- C4c
- SCoins <- C1a
- Tamper = TRUE
+ Vars = {"n"}
+ Ns = {2, 3}
+ MsgVecs <- MV7
+ CCoins <- AllZq
+ SCoins <- C2c
+ Tamper = FALSE
+ PowM <- TabPowM
 INVARIANTS Correct HonestAbort Refusal OneOnly Curious CuriousPairs
 CHECK_DEADLOCK FALSE
